@@ -187,7 +187,7 @@ def build_items(cases, run=None):
     core.use_repo()
     engine_build.build(False)
     items = []
-    obs = child.map_children("c16", "observe", cases, timeout=120)      # a crash or hang of the engine is an observation
+    obs = child.map_children("c16", "observe", cases, timeout=120, confirm=True)      # a crash or hang of the engine is an observation
     for c, o in zip(cases, obs):
         if "timeout" in o or "crash" in o or "error" in o:
             o = {"accepted": False, "why": "harness: %s" % (o.get("error") or ("timeout" if "timeout" in o else "crash"))}
